@@ -148,3 +148,8 @@ package encoder
 //@   modifies $pooled, $bufarr
 //@   ensures r1 == nil ==> !$pooled[base(r0)]
 //@   ensures r1 != nil ==> r0 == nil
+
+// Quote(s) (C20): the text of the result is `"` ++ native quoting of the whole of s ++ `"`.
+//@ func Quote props C20
+//@   ensures len(result) >= 2 && subtxt(result, 0, 1) == txt("\"") && subtxt(result, len(result) - 1, 1) == txt("\"")
+//@   ensures subtxt(result, 1, len(result) - 2) == native.quoteSpec(txt(s), 0)
